@@ -208,6 +208,20 @@ CLAIMS = {
           "write_thrift) are native and cannot be repaired here; a report in any other function or of another kind is a "
           "new violation. The generated foreign files of C03 are replayed by the C03 check itself."),
     technique="TLA+ bounds models and input spaces + replay under an ASan/UBSan build (sanitizer is the oracle)"),
+ "C03": dict(
+    level="model_checking",
+    text=("spec/Format.tla is a nondeterministic generator of VALID single-column Parquet layouts (row-group and page "
+          "splits, page version, encoding per page with dictionary fallback, explicit run structures of definition "
+          "levels and dictionary indices, index bit widths, codec, v2 compression flag, created_by) whose guards are the "
+          "format's validity rules and whose state carries the logical cells. TLC enumerates five sub-lattices "
+          "exhaustively and samples the full product with seeded simulation; every terminal state is rendered to bytes "
+          "by the independent encoder pqspec (which must read its own file back), read by the library, and compared cell "
+          "by cell and by dtype kind; NotImplementedError counts as the permitted refusal."),
+    design_ref="DESIGN.md section 5 C03, section 10",
+    note=("Not exhaustive over the full product (simulation). Five reader defects repaired in Python (v2 level byte "
+          "length, v2 RLE/dictionary pages with nulls, v1 RLE booleans, v2 DELTA INT64, zero-length pages); known findings "
+          "KF-C03-* rest on native code (delta decoder, 32-bit accumulator) or on the created_by heuristic."),
+    technique="TLA+ spec as generator of valid layouts (TLC exhaustive sub-lattices + simulation); independent encoder; replay"),
 }
 
 NOT_BUILT = "not built yet (construction order in DESIGN.md section 9)"
